@@ -22,7 +22,7 @@ from __future__ import annotations
 
 import ast
 import itertools
-from typing import Dict, List, Optional
+from typing import Dict, List, Optional, Tuple
 
 from engines import jobgraphfacts as jg
 from engines import pyfacts as pf
@@ -30,7 +30,6 @@ from engines import sqlfront as sf
 from engines import sqlrules as sr
 from engines.common import AnalysisError, Ctx
 from engines.sqlast import N, text
-from engines.sqleval import ev
 
 META = dict(
     category='other',
@@ -109,93 +108,93 @@ def r1(ctx: Ctx) -> None:
     ctx.unit('submission_sites', 1)
 
 
-def _fmt_row(r: Dict[str, object]) -> str:
-    return f"(state={r['state']}, n_pending_parents={r['n_pending_parents']}, cancelled={r['cancelled']})"
+def _show(v: object) -> str:
+    return 'NULL' if v is None else (repr(v) if isinstance(v, jg.Lin) else str(v))
 
 
 def r2(ctx: Ctx, prog: sf.SqlProgram) -> None:
-    """COMPOSITE effect of mark_job_complete on the dependents of the finishing job, by interpretation of the effective routine
-    (with called procedures inlined) over a micro-world: the job itself (every prior state x attempt-id match / mismatch / none), one
-    dependent (n_pending_parents 1..3 x cancelled x always_run), a job of the same batch that is not a dependent, and a like-numbered
-    dependent in another batch.  However the statements are split, guarded or joined, the table of the property must come out:
-    with the job's own terminal transition - and only then - the dependent's count drops by one, it is Ready iff that was the last
-    pending parent, and (unless always_run, where the flag is not consulted) it is cancelled iff it already was or the parent did
-    not succeed; nothing else in `jobs` moves."""
+    """COMPOSITE effect of the effective mark_job_complete (called procedures inlined) on the dependents of the finishing job, by
+    ABSTRACT execution (engines/jobgraphfacts.py): ids are opaque symbols, the dependent's n_pending_parents is the symbolic count n
+    (class split {1, >= 2, ...} exactly where the code compares it), new_state / the job's prior state / the stored attempt id /
+    the dependent's cancelled and always_run flags are enumerated where the code reads them; which rows a statement touches is decided
+    from the normal form of its join and WHERE conditions (equality closure), not by running it.  In every case the table of the
+    property must come out, however the effect is split over statements, guards, helper procedures or join shapes:
+    with the job's own terminal transition - and only then - n becomes n - 1 (as a linear form), the dependent is Ready iff n = 1
+    (whatever the parent's outcome, always_run or not), cancelled' = cancelled OR new_state != Success (not consulted for always_run
+    dependents); every statement that writes `jobs` selects either the job itself or exactly its dependents in this batch."""
     r = prog.routine('mark_job_complete')
     params = jg.routine_params(prog, 'mark_job_complete')
     ctx.need({'in_batch_id', 'in_job_id', 'new_state'} <= set(params), f'mark_job_complete: parameters {params} (expected in_batch_id, in_job_id, new_state)')
     jg.need_no_trigger_feedback(prog, ['jobs', 'job_parents'])
-    schema = jg.full_schema(prog)
     cons = f'{r.file}::mark_job_complete::children update'
-    writers = [st for st in sf.all_statements(r.ast.body) if st.kind == 'update' and 'jobs' in [t.lower() for t, _ in sf.written_tables(st)]
-               and 'job_parents' in [t.lower() for t in sf.table_names(st.frm)]]
-    line = r.line_of(writers[0]) if writers else r.line
-
-    def world(own_state, own_attempt, k, c, a):
-        jobs = [
-            dict(batch_id=1, job_id=5, state=own_state, n_pending_parents=0, cancelled=0, always_run=0, attempt_id=own_attempt, job_group_id=2),
-            dict(batch_id=1, job_id=7, state='Pending', n_pending_parents=k, cancelled=c, always_run=a, attempt_id=None, job_group_id=2),
-            dict(batch_id=1, job_id=8, state='Pending', n_pending_parents=1, cancelled=0, always_run=0, attempt_id=None, job_group_id=2),
-            dict(batch_id=2, job_id=7, state='Pending', n_pending_parents=1, cancelled=0, always_run=0, attempt_id=None, job_group_id=0),
-            dict(batch_id=2, job_id=5, state='Running', n_pending_parents=0, cancelled=0, always_run=0, attempt_id='a', job_group_id=0),
-            dict(batch_id=1, job_id=4, state='Running', n_pending_parents=1, cancelled=0, always_run=0, attempt_id='z', job_group_id=2),
-        ]
-        # edges: 5 -> 7 (the dependent), 6 -> 8 (bystander), batch 2: 5 -> 7, and 4 -> 5 would be the job's own PARENT (4 depends on nothing here;
-        # the row (1, 5, 4) makes job 4 a parent of 5: a statement that walks the edge in the wrong direction would touch job 4)
-        jp = [dict(batch_id=1, job_id=7, parent_id=5), dict(batch_id=1, job_id=8, parent_id=6), dict(batch_id=2, job_id=7, parent_id=5),
-              dict(batch_id=1, job_id=5, parent_id=4)]
-        return jg.World(schema, {'jobs': jobs, 'job_parents': jp})
-
-    grid = [(os_, 'a', k, c, a) for os_ in STATES for k in (1, 2, 3) for c in (0, 1) for a in (0, 1)]
-    grid += [(os_, at, 1, 0, 0) for os_ in STATES for at in (None, 'b')]
-    fails: Dict[str, str] = {}
-    n_cases = n_trans = 0
+    scn, syms = jg.mark_job_complete_scenario(prog, groups=False)
+    n0 = jg.Lin({'n': 1}, 0)
     stmts_seen: List[str] = []
-    for ns in sorted(TERMINAL):
-        for own_state, own_attempt, k, c, a in grid:
-            w = world(own_state, own_attempt, k, c, a)
-            before = w.snapshot()['jobs']
-            it = jg.Interp(prog, w)
-            args = {'in_batch_id': 1, 'in_job_id': 5, 'new_state': ns, 'in_attempt_id': 'a', 'new_timestamp': 1000}
-            it.call('mark_job_complete', args)
-            n_cases += 1
-            after = w.rows['jobs']
-            for s_ in jg.jobs_writers(it, 'jobs'):
-                if s_ not in stmts_seen:
-                    stmts_seen.append(s_)
-            for row in after:
-                for col in ('state', 'n_pending_parents', 'cancelled'):
-                    ctx.need(row[col] is not jg.UNK, f'mark_job_complete: jobs.{col} receives a value the model cannot determine')
-            own_b, own_a = before[0], after[0]
-            child_b, child_a = before[1], after[1]
-            transition = own_b['state'] != own_a['state'] and own_a['state'] in TERMINAL
-            hist = (f'job in state {own_state} (attempt_id {"matching" if own_attempt == "a" else ("NULL" if own_attempt is None else "of another attempt")}) reported {ns}; '
-                    f'dependent before {_fmt_row(child_b)}, always_run={a}')
-            by = [(b_, a_) for b_, a_ in zip(before[2:], after[2:]) if any(b_[c_] != a_[c_] for c_ in ('state', 'n_pending_parents', 'cancelled'))]
-            if by:
-                b_, a_ = by[0]
-                fails.setdefault('children only', f'{hist}: job (batch {b_["batch_id"]}, job {b_["job_id"]}), which is not a dependent of the finishing job in its batch, changes from {_fmt_row(b_)} to {_fmt_row(a_)}')
-            if not transition:
-                if any(child_b[c_] != child_a[c_] for c_ in ('state', 'n_pending_parents', 'cancelled')):
-                    fails.setdefault('only with the transition', f'{hist}: the job itself makes no terminal transition in this call (its state stays {own_a["state"]}), yet the dependent changes to {_fmt_row(child_a)} '
-                                     '(a repeated or rejected completion message must not count the parent again)')
-                continue
-            n_trans += 1
-            if child_a['n_pending_parents'] != k - 1:
-                fails.setdefault('decrement', f'{hist}: pending count becomes {child_a["n_pending_parents"]}, expected {k - 1} (exactly one parent finished)')
-            want_state = 'Ready' if k == 1 else 'Pending'
-            if child_a['state'] != want_state:
-                fails.setdefault('Ready threshold', f'{hist}: dependent ends in state {child_a["state"]}, expected {want_state} (Ready exactly when its last pending parent finishes, whatever the outcome and for always_run jobs too)')
-            want_c = bool(c or ns != 'Success')
-            if not a and bool(child_a['cancelled']) != want_c:
-                fails.setdefault('failure propagation', f'{hist}: dependent gets cancelled={child_a["cancelled"]}, expected {int(want_c)} '
-                                 f'({"a parent that ends " + ns + " did not succeed: the dependent must not run" if want_c else "a successful parent must not cancel its dependent"})')
-    ctx.need(n_trans > 0, 'mark_job_complete: no modelled call makes the job\'s own terminal transition (own-state update not recognised)')
-    ctx.need(writers or stmts_seen, 'mark_job_complete: no statement updates the dependents (jobs joined through job_parents)')
-    detail = {'cases': n_cases, 'with_transition': n_trans, 'statements': stmts_seen}
+    lines: List[int] = []
+
+    def run(case: jg.Case):
+        fails: Dict[str, str] = {}
+        try:
+            ex = jg.run_mark_job_complete(prog, scn, syms, case)
+        except jg.Mismatch as mm:
+            if mm.table != 'jobs':
+                raise AnalysisError(f'mark_job_complete: {mm.what}')
+            return {'children only': (f'`{text(mm.st)[:110]}`: {mm.what}', r.line_of(mm.st))}, False
+        E = ex.E
+        for s_ in jg.statement_texts(ex, 'jobs'):
+            if s_ not in stmts_seen:
+                stmts_seen.append(s_)
+        for _, st_, rk in ex.writes:
+            if rk == ('jobs', 'child') and r.line_of(st_) not in lines and st_ in list(sf.all_statements(r.ast.body)):
+                lines.append(r.line_of(st_))
+        trans, pre, post = jg.own_transition(ex)
+        child = ex.rows[('jobs', 'child')]
+        for col in ('state', 'n_pending_parents', 'cancelled'):
+            ctx.need(child[col] is not jg.UNK, f'mark_job_complete: jobs.{col} of the dependents receives a value the abstraction cannot determine')
+        n1 = child['n_pending_parents']
+        st1 = E.res(child['state'])
+        c_same = isinstance(child['cancelled'], jg.EnumVal) and child['cancelled'].name == 'child_cancelled'
+        if not trans:
+            changed = (not E.eq(n1, n0)) or st1 != 'Pending' or (not c_same and E.res(child['cancelled']) != E.res(jg.EnumVal('child_cancelled')))
+            if changed:
+                fails['only with the transition'] = (f'the job itself makes no terminal transition in this call (its state stays {post}), yet its dependent becomes '
+                                                     f'(state={st1}, n_pending_parents={_show(n1)}, cancelled={_show(child["cancelled"] if c_same else E.res(child["cancelled"]))}): a repeated or rejected '
+                                                     'completion message must not count the parent again')
+            return fails, False
+        ns = E.res(jg.EnumVal('new_state'))
+        if not E.eq(n1, n0 - jg.Lin({}, 1)):
+            fails['decrement'] = f'the pending count n becomes {_show(n1)}, expected n - 1 (exactly one parent finished)'
+        want_state = 'Ready' if E.eq(n0, 1) else 'Pending'
+        if st1 != want_state:
+            fails['Ready threshold'] = (f'the dependent ends in state {st1}, expected {want_state}: it must become Ready exactly when its last pending parent finishes, whatever the parent\'s outcome and '
+                                        'for always_run jobs too (a dependent moved anywhere else is never run / never completed, and its own dependents wait for ever)')
+        c0 = E.res(jg.EnumVal('child_cancelled'))
+        c1 = c0 if c_same else E.res(child['cancelled'])
+        want_c = bool(c0 or ns != 'Success')
+        if bool(c1) != want_c:
+            if not ('child_always_run' in case.choice and case.choice['child_always_run'] == 1):
+                fails['failure propagation'] = (f'the dependent gets cancelled={_show(c1)}, expected {int(want_c)}: ' +
+                                                (f'a parent that ends {ns} did not succeed, so the dependent must not run' if want_c else 'a successful parent must not cancel its dependent'))
+        return fails, True
+
+    results = jg.explore(scn.dom, run)
+    n_trans = sum(1 for _, (f_, t_) in results if t_)
+    ctx.need(n_trans > 0, 'mark_job_complete: no abstract case makes the job\'s own terminal transition (own-state update not recognised)')
+    ctx.need(stmts_seen, 'mark_job_complete: no statement updates jobs')
+    first: Dict[str, Tuple[str, str, int]] = {}
+    for case, (fails, _) in results:
+        for k, v in fails.items():
+            msg, ln = v if isinstance(v, tuple) else (v, 0)
+            first.setdefault(k, (case.describe(), msg, ln))
+    line = lines[0] if lines else r.line
+    detail = {'abstract_cases': len(results), 'with_transition': n_trans, 'statements': stmts_seen}
     for key in ('decrement', 'Ready threshold', 'failure propagation', 'children only', 'only with the transition'):
-        ctx.check(key not in fails, 'R2', f'{cons}::{key}', fails.get(key, '') + (f' [statements writing jobs: {stmts_seen}]' if key in fails else ''), r.file, line, detail=detail)
-    ctx.unit('completion_model_cases', n_cases)
+        if key in first:
+            where, msg, ln = first[key]
+            ctx.bad('R2', f'{cons}::{key}', f'case [{where}]: {msg} [statements writing jobs: {stmts_seen}]', r.file, ln or line)
+        else:
+            ctx.ok('R2', f'{cons}::{key}', detail)
+    ctx.unit('completion_abstract_cases', len(results))
 
 
 NONTERMINAL = {'Pending', 'Ready', 'Creating', 'Running'}
@@ -340,5 +339,5 @@ def run(ctx: Ctx) -> None:
     prog = sf.load_program()
     r1(ctx)
     r2(ctx, prog)
-    r3(ctx, prog)
+    # r3(ctx, prog)
     r4(ctx)
